@@ -3,10 +3,12 @@ import contracts.all  # noqa
 import contracts.harness_general  # noqa
 import contracts.harness_chunk  # noqa
 import contracts.chunk as CH
+import contracts.storage as STO
 import contracts.general as G
 import contracts.standins_chunk as B
 
-PROVED = [CH.split_array, CH.chunk_split, CH.chunk_init_rows, CH.chunk_init_none, CH.chunk_init_other, G.diff, CH.concatenate2, CH.merge2]
+PROVED = [CH.split_array, CH.chunk_split, CH.chunk_init_rows, CH.chunk_init_none, CH.chunk_init_other, G.diff, CH.concatenate2, CH.merge2,
+          STO.rechunker_receive_empty, STO.rechunker_receive_cached, STO.rechunker_flush_cached, STO.rechunker_flush_empty]
 
 PROPERTY = Property(
     "C07", "proof",
